@@ -163,7 +163,7 @@ def run_public(case):
     agent = UsmAgent(cfg, CLOCKS[case["clock"]], lose_first=case.get("lose_first", False))
     script = case["script"]
     problems = []
-    tmo = 0.15 if case.get("lose_first") else 3.0
+    tmo = 1.0 if case.get("lose_first") else 4.0
     if case["driver"] == "sync":
         w = drivers.SyncWorld(cfg, agent, timeout=tmo, max_repetitions=4)
         try:
